@@ -10,11 +10,66 @@ import (
 // Locker mirrors sync.Locker.
 type Locker = gosync.Locker
 
-// Pool and Map never block; the real ones are used.
-type (
-	Pool = gosync.Pool
-	Map  = gosync.Map
-)
+// Pool and Map never block: the real ones do the work. Every operation is a scheduling point and, for the race
+// detector, a release and an acquire on one global clock (as for sync/atomic): a value published through a sync.Map
+// or handed over through a sync.Pool is ordered after the writes that prepared it, so code that synchronises this
+// way is never reported; a race that happens to be separated by unrelated Map / Pool operations goes unreported.
+type Map struct{ m gosync.Map }
+
+func (m *Map) Load(key any) (any, bool) { AtomicFence(); defer AtomicFence(); return m.m.Load(key) }
+func (m *Map) Store(key, value any)     { AtomicFence(); defer AtomicFence(); m.m.Store(key, value) }
+func (m *Map) LoadOrStore(key, value any) (any, bool) {
+	AtomicFence()
+	defer AtomicFence()
+	return m.m.LoadOrStore(key, value)
+}
+func (m *Map) LoadAndDelete(key any) (any, bool) {
+	AtomicFence()
+	defer AtomicFence()
+	return m.m.LoadAndDelete(key)
+}
+func (m *Map) Delete(key any) { AtomicFence(); defer AtomicFence(); m.m.Delete(key) }
+func (m *Map) Swap(key, value any) (any, bool) {
+	AtomicFence()
+	defer AtomicFence()
+	return m.m.Swap(key, value)
+}
+func (m *Map) CompareAndSwap(key, old, new any) bool {
+	AtomicFence()
+	defer AtomicFence()
+	return m.m.CompareAndSwap(key, old, new)
+}
+func (m *Map) CompareAndDelete(key, old any) bool {
+	AtomicFence()
+	defer AtomicFence()
+	return m.m.CompareAndDelete(key, old)
+}
+func (m *Map) Range(f func(key, value any) bool) {
+	AtomicFence()
+	defer AtomicFence()
+	m.m.Range(func(k, v any) bool { AtomicFence(); return f(k, v) })
+}
+func (m *Map) Clear() { AtomicFence(); defer AtomicFence(); m.m.Clear() }
+
+// Pool mirrors sync.Pool (the New field included).
+type Pool struct {
+	New func() any
+	p   gosync.Pool
+}
+
+func (p *Pool) Get() any {
+	AtomicFence()
+	defer AtomicFence()
+	if v := p.p.Get(); v != nil {
+		return v
+	}
+	if p.New != nil {
+		return p.New()
+	}
+	return nil
+}
+
+func (p *Pool) Put(x any) { AtomicFence(); defer AtomicFence(); p.p.Put(x) }
 
 // Mutex is a scheduler-aware sync.Mutex.
 type Mutex struct {
